@@ -305,6 +305,9 @@ func (f *Frame) call(in ssa.Instruction, cc *ssa.CallCommon, st *State) []Term {
 	}
 	if blk == nil && inModule(callee) && f.depth < 3 && smallLeaf(callee) && (samePackage(callee, f.topFrame().fn) || callFree(callee)) && !c.eng.isRecursive(callee) {
 		short := callee.Name()
+		if o := callee.Origin(); o != nil {
+			short = o.Name() // an instance of a generic function is recorded under the generic's name
+		}
 		if callee.Signature.Recv() != nil {
 			rt := callee.Signature.Recv().Type()
 			if p, ok := rt.(*types.Pointer); ok {
@@ -1038,6 +1041,9 @@ func (f *Frame) opaqueCall(in ssa.Instruction, cc *ssa.CallCommon, callee *ssa.F
 		name = callee.Name()
 		qual = callee.String()
 		short := callee.Name()
+		if o := callee.Origin(); o != nil {
+			short = o.Name() // an instance of a generic function is recorded under the generic's name
+		}
 		if callee.Signature.Recv() != nil {
 			rt := callee.Signature.Recv().Type()
 			if p, ok := rt.(*types.Pointer); ok {
@@ -1078,6 +1084,9 @@ func (f *Frame) opaqueCall(in ssa.Instruction, cc *ssa.CallCommon, callee *ssa.F
 	res := f.freshResults(cc, st, name)
 	if callee != nil {
 		short := callee.Name()
+		if o := callee.Origin(); o != nil {
+			short = o.Name() // an instance of a generic function is recorded under the generic's name
+		}
 		if callee.Signature.Recv() != nil {
 			rt := callee.Signature.Recv().Type()
 			if p, ok := rt.(*types.Pointer); ok {
